@@ -764,6 +764,23 @@ where
     run_sharded_on(ctx.threads, n_shards, f)
 }
 
+static STARTED: std::sync::OnceLock<(std::time::Instant, u64)> = std::sync::OnceLock::new();
+
+/// Called once by main: when the run started and after how many seconds workloads should wind down.
+pub fn set_soft_deadline(seconds: u64) {
+    let _ = STARTED.set((std::time::Instant::now(), seconds));
+}
+
+/// True once the run has used up its soft time budget (well before the driver's watchdog): shards not yet started are
+/// skipped and long loops stop, so that what HAS been observed — violations first of all — is still reported instead of
+/// being lost to the watchdog. A run that stopped early is inconclusive (a coverage floor fails), never "held".
+pub fn soft_deadline_passed() -> bool {
+    match STARTED.get() {
+        Some((t0, secs)) => t0.elapsed().as_secs() >= *secs,
+        None => false,
+    }
+}
+
 /// Same, with an explicit worker count (workloads that mostly sleep use more workers than cores).
 pub fn run_sharded_on<F>(threads: usize, n_shards: usize, f: F) -> Report
 where
@@ -780,6 +797,10 @@ where
                     let i = next.fetch_add(1, Ordering::Relaxed);
                     if i >= n_shards {
                         break;
+                    }
+                    if soft_deadline_passed() {
+                        local.count("shards_skipped_at_the_soft_deadline");
+                        continue;
                     }
                     // A panic escaping a shard is a harness error for that shard; it is recorded and
                     // turned into an inconclusive run by the driver (never a violation).
